@@ -1585,7 +1585,7 @@ static size_t sel = (size_t)-1; /* save extension length */
 int save_object (object_t * ob, const char *file, int save_zeros) {
 
   char *name;
-  static char tmp_name[256];
+  char *tmp_name;
   size_t len;
   FILE *f;
   int success;
@@ -1626,14 +1626,19 @@ int save_object (object_t * ob, const char *file, int save_zeros) {
    * Write the save-files to different directories, just in case
    * they are on different file systems.
    */
-  snprintf (tmp_name, sizeof(tmp_name), "%.250s.tmp", file);
-  tmp_name[sizeof(tmp_name) - 1] = '\0';
+  /* The temporary is the approved name plus ".tmp", whatever its length: a name cut
+   * to fit a fixed buffer is a file (maybe in another directory) nobody approved. */
+  len = strlen (file);
+  tmp_name = (char *) DXALLOC (len + 5, TAG_TEMPORARY, "save_object: tmp_name");
+  memcpy (tmp_name, file, len);
+  strcpy (tmp_name + len, ".tmp");
 
   opt_trace (TT_EVAL|1, "creating tmp file: %s", tmp_name);
   f = fopen (tmp_name, "w");
   if (!f)
     {
       debug_perror ("fopen()", tmp_name);
+      FREE (tmp_name);
       free_string_svalue (sp--);
       return 0;  
     }
@@ -1643,6 +1648,7 @@ int save_object (object_t * ob, const char *file, int save_zeros) {
       debug_perror ("Could not write save_object() header", tmp_name);
       fclose (f);
       unlink (tmp_name);
+      FREE (tmp_name);
       free_string_svalue (sp--);
       return 0;
     }
@@ -1677,6 +1683,7 @@ int save_object (object_t * ob, const char *file, int save_zeros) {
         }
     }
 
+  FREE (tmp_name);
   free_string_svalue (sp--);
   return success ? 1 : 0;
 }
